@@ -108,6 +108,16 @@ def scan_oracle(scs):
 def real_scan(scs):
     from tola.assembly.assembly import Assembly
     rs = [conv.to_real_scaffold(s) for s in scs]
+    # rows with the same oid are ONE Fragment object placed several times (append_scaffold, Scaffold(rows=...) and lookups share row
+    # objects): a placement is a fragment of the assembly in its own right
+    first = {}
+    for s, js in zip(rs, scs):
+        for k, jr in enumerate(js["rows"]):
+            if jr["t"] == "F":
+                if jr["oid"] in first:
+                    s.rows[k] = first[jr["oid"]]
+                else:
+                    first[jr["oid"]] = s.rows[k]
     oid_of = {}
     for s, js in zip(rs, scs):
         for r, jr in zip(s.rows, js["rows"]):
@@ -131,7 +141,8 @@ def check_scans(ctx, stream, asms):
             out.compare(stream, a, r, m, key)
         else:
             out.case(stream, a, key)
-        if sorted(map(tuple, r)) != sorted(map(tuple, exp)) or len(r) != len(set(map(tuple, r))):
+        # as multisets (a shared object gives equal id pairs for different placements; `exp` lists every unordered pair of placements once)
+        if sorted(map(tuple, r)) != sorted(map(tuple, exp)):
             out.oracle_fail(stream, a, "scan result differs from brute-force set of overlapping same-name pairs",
                             detail={"real": r, "expected": exp})
         if none != (len(exp) == 0):
@@ -198,6 +209,26 @@ def run(ctx):
     check_pairs(ctx, "pred-random-large", big)
     asms = [rand_assembly(rng) for _ in range(3000 if ctx.thorough else 400)]
     check_scans(ctx, "scan-random", asms)
+    # the same Fragment OBJECT placed twice (in two scaffolds or twice in one), also when every contig name is carried by one object only
+    shared = []
+    for _ in range(1500 if ctx.thorough else 250):
+        a = rand_assembly(rng, names=(("a", "b", "c") if rng.random() < 0.5 else tuple("abcdefghijklmnop")))
+        if rng.random() < 0.5:
+            # every name on exactly one object
+            seen = set()
+            for s_ in a:
+                s_["rows"] = [r for r in s_["rows"] if r["t"] != "F" or (r["name"] not in seen and not seen.add(r["name"]))]
+            a = [s_ for s_ in a if any(r["t"] == "F" for r in s_["rows"])]
+        frs = [(si, k) for si, s_ in enumerate(a) for k, r in enumerate(s_["rows"]) if r["t"] == "F"]
+        if not frs:
+            continue
+        for _k in range(rng.randint(1, 2)):
+            (si, k) = rng.choice(frs)
+            src = a[si]["rows"][k]
+            tj = rng.randrange(len(a))
+            a[tj]["rows"].insert(rng.randint(0, len(a[tj]["rows"])), dict(src))
+        shared.append(a)
+    check_scans(ctx, "scan-shared-objects", shared)
     check_cli(ctx, "cli-qc-overlaps", asms[: (200 if ctx.thorough else 25)])
 
 
